@@ -1,12 +1,218 @@
-(* Declarative specifications (short enough to audit by eye). *)
+(* Declarative specifications (short enough to audit by eye).  Nothing here refers to the
+   model's parser, push, hash or query functions: only to list primitives, the component
+   types, and the split-and-classify specification [spec_comps] of Core.v. *)
 From Coq Require Import List NArith Bool Lia.
 Import ListNotations.
-From TP Require Import Core.
+From TP Require Import Core Path Win.
 Open Scope N_scope.
 
-(* Unix: split on '/', drop empty segments and every "." that is not the first
-   segment of a relative path, classify "..", keep a leading '/' as Root.
-   [spec_comps] is in Core.v; this is its Unix instance. *)
+(* ---------------- Unix ---------------- *)
+(* split on '/', drop empty segments and every "." that is not the first segment of a
+   relative path, classify "..", keep a leading '/' as Root *)
 Definition usep_s (b : byte) : bool := b =? 47.
 Definition ucomps (l : list byte) : list comp := spec_comps usep_s true l.
 
+(* ---------------- Windows prefix grammar ---------------- *)
+Definition s_sep_any (b : byte) : bool := (b =? 92) || (b =? 47).
+Definition s_wsep (norm : bool) (b : byte) : bool := (b =? 92) || (norm && (b =? 47)).
+(* a path is normalised unless it starts with exactly \\?\ *)
+Definition s_norm (l : list byte) : bool :=
+  match l with
+  | a :: b :: c :: d :: _ => negb ((a =? 92) && (b =? 92) && (c =? 63) && (d =? 92))
+  | _ => true
+  end.
+Definition s_alpha (d : byte) : bool := ((65 <=? d) && (d <=? 90)) || ((97 <=? d) && (d <=? 122)).
+Definition s_upper (d : byte) : byte := if (97 <=? d) && (d <=? 122) then d - 32 else d.
+(* longest separator-free leading run, and what follows *)
+Definition take_name (sep : byte -> bool) (l : list byte) : list byte * list byte := span_nsep sep l.
+(* server [sep] share : server non-empty, at most one separator, share possibly empty *)
+Definition unc_parts (sep : byte -> bool) (l : list byte) : option (list byte * list byte * list byte) :=
+  let (srv, r1) := take_name sep l in
+  match srv with
+  | [] => None
+  | _ => let r2 := match r1 with b :: t => if sep b then t else r1 | [] => r1 end in
+         let (sh, r3) := take_name sep r2 in Some (srv, sh, r3)
+  end.
+Definition starts_unc_lit (l : list byte) : option (list byte) :=
+  match l with
+  | a :: b :: c :: t => if (a =? 85) && (b =? 78) && (c =? 67) then Some t else None
+  | _ => None
+  end.
+Definition disk_at (l : list byte) : option (byte * list byte) :=
+  match l with
+  | d :: c :: t => if s_alpha d && (c =? 58) then Some (s_upper d, t) else None
+  | _ => None
+  end.
+
+(* the six kinds in their documented priority; result = (kind, what follows the prefix) *)
+Definition wprefix_grammar (l : list byte) : option (wprefix * list byte) :=
+  let norm := s_norm l in
+  let sep := s_wsep norm in
+  let unc :=            (* \\server\share *)
+    match l with
+    | a :: b :: t => if s_sep_any a && s_sep_any b then
+                       match unc_parts s_sep_any t with Some (srv, sh, r) => Some (UNC srv sh, r) | None => None end
+                     else None
+    | _ => None
+    end in
+  match l with
+  | a :: b :: c :: d :: rest =>
+      if s_sep_any a && s_sep_any b && s_sep_any d then
+        if c =? 63 then            (* \\?\ header, either slash *)
+          let vunc := match starts_unc_lit rest with
+                      | Some (s :: t) => if sep s then
+                                           match unc_parts sep t with
+                                           | Some (srv, sh, r) => Some (VerbatimUNC srv sh, r)
+                                           | None => None end
+                                         else None
+                      | _ => None
+                      end in
+          match vunc with
+          | Some x => Some x
+          | None =>
+              match disk_at rest with
+              | Some (dl, r) => Some (VerbatimDisk dl, r)
+              | None =>
+                  let (x, r) := take_name sep rest in
+                  match x, r with
+                  | _ :: _, _ => Some (Verbatim x, r)
+                  | [], s :: _ => if sep s then Some (Verbatim [], rest) else unc
+                  | [], [] => unc
+                  end
+              end
+          end
+        else if c =? 46 then       (* \\.\ header *)
+          let (x, r) := take_name s_sep_any rest in
+          match x with _ :: _ => Some (DeviceNS x, r) | [] => unc end
+        else unc
+      else match unc with Some x => Some x | None => match disk_at l with Some (dl, r) => Some (Disk dl, r) | None => None end end
+  | _ => match unc with Some x => Some x | None => match disk_at l with Some (dl, r) => Some (Disk dl, r) | None => None end end
+  end.
+
+(* the Windows decomposition: [prefix] then root / "." / ".." / names of the rest *)
+Definition wspec (l : list byte) : list wcomp :=
+  let norm := s_norm l in
+  match wprefix_grammar l with
+  | Some (k, rest) => WPrefix (firstn (length l - length rest) l) k :: map WC (spec_comps (s_wsep norm) norm rest)
+  | None => map WC (spec_comps (s_wsep norm) norm l)
+  end.
+
+(* ---------------- component-level notions shared by both encodings ---------------- *)
+Definition uspec (l : list byte) : list wcomp := map WC (ucomps l).
+Definition k_is_prefix (c : wcomp) := match c with WPrefix _ _ => true | _ => false end.
+Definition k_is_root (c : wcomp) := match c with WC Root => true | _ => false end.
+Definition k_is_normal (c : wcomp) := match c with WC (Normal _) => true | _ => false end.
+Definition k_is_cur (c : wcomp) := match c with WC Cur => true | _ => false end.
+Definition k_is_parent (c : wcomp) := match c with WC Parent => true | _ => false end.
+Definition k_name (c : wcomp) : list byte := match c with WC (Normal n) => n | _ => [] end.
+Definition removable (c : wcomp) : bool := k_is_normal c || k_is_cur c || k_is_parent c.
+Definition last_w (l : list wcomp) : option wcomp := match rev l with c :: _ => Some c | [] => None end.
+Fixpoint wlist_eqb (a b : list wcomp) : bool :=
+  match a, b with
+  | [], [] => true
+  | x :: a', y :: b' => wcomp_eqb x y && wlist_eqb a' b'
+  | _, _ => false
+  end.
+Fixpoint wlist_prefix (p l : list wcomp) : bool :=       (* p is a leading run of l *)
+  match p, l with
+  | [], _ => true
+  | x :: p', y :: l' => wcomp_eqb x y && wlist_prefix p' l'
+  | _ :: _, [] => false
+  end.
+Definition wlist_suffix (p l : list wcomp) : bool := wlist_prefix (rev p) (rev l).
+Fixpoint wlist_cmp (a b : list wcomp) : comparison :=    (* lexicographic on the component order *)
+  match a, b with
+  | [], [] => Eq
+  | [], _ :: _ => Lt
+  | _ :: _, [] => Gt
+  | x :: a', y :: b' => match wcomp_cmp x y with Eq => wlist_cmp a' b' | c => c end
+  end.
+Fixpoint bytes_prefix (p l : list byte) : bool :=
+  match p, l with
+  | [], _ => true
+  | x :: p', y :: l' => (x =? y) && bytes_prefix p' l'
+  | _ :: _, [] => false
+  end.
+
+(* documented forbidden bytes *)
+Definition forbidden_unix : list byte := [47; 0].
+Definition forbidden_windows : list byte := [92; 47; 58; 63; 42; 34; 62; 60; 124; 0].
+Definition name_ok (tbl n : list byte) : bool := forallb (fun b => negb (mem_b b tbl)) n.
+Definition comp_ok (tbl : list byte) (c : wcomp) : bool := match c with WC (Normal n) => name_ok tbl n | _ => true end.
+
+(* "well-formed" for the properties that quantify over well-formed paths (C04 C08 C10 C11 C12):
+   every name is a valid file name of the encoding, a UNC share is present, and a non-disk prefix
+   is followed by a separator or by nothing (a verbatim disk is not glued to a name) *)
+Definition wf_comps (tbl : list byte) (cs : list wcomp) : bool :=
+  forallb (comp_ok tbl) cs &&
+  match cs with
+  | WPrefix _ k :: rest =>
+      match k with
+      | UNC _ [] | VerbatimUNC _ [] => false
+      | Disk _ => true
+      | _ => match rest with [] => true | c :: _ => k_is_root c end
+      end
+  | _ => true
+  end.
+
+(* ... and the decomposition does not depend on the spelling: written out with single primary
+   separators the components read back as themselves (this excludes look-alikes such as
+   \\?\UNC\\a, whose prefix is Verbatim "UNC" but which re-reads as a verbatim UNC prefix) *)
+Fixpoint intercalate (sep : list byte) (l : list (list byte)) : list byte :=
+  match l with [] => [] | [x] => x | x :: r => x ++ sep ++ intercalate sep r end.
+Definition render_body (sep : byte) (cs : list wcomp) : list byte :=
+  match cs with
+  | WC Root :: r => sep :: intercalate [sep] (map wc_bytes r)
+  | _ => intercalate [sep] (map wc_bytes cs)
+  end.
+Definition render (sep : byte) (cs : list wcomp) : list byte :=
+  match cs with
+  | WPrefix raw _ :: r => raw ++ render_body sep r
+  | _ => render_body sep cs
+  end.
+Definition wf_windows (p : list byte) : bool :=
+  let cs := wspec p in
+  wf_comps forbidden_windows cs && wlist_eqb (wspec (render 92 cs)) cs.
+Definition wf_unix (p : list byte) : bool := wf_comps forbidden_unix (uspec p).
+
+(* C04: the first offending component of an untrusted path, scanning left to right with the
+   count of normal components not yet cancelled by ".." *)
+Fixpoint scan_spec (tbl : list byte) (cs : list wcomp) (depth : nat) : option cerr :=
+  match cs with
+  | [] => None
+  | c :: r =>
+      if k_is_prefix c then Some EPrefix
+      else if k_is_root c then Some ERoot
+      else if k_is_parent c then match depth with O => Some ETraversal | S d => scan_spec tbl r d end
+      else if k_is_normal c then (if name_ok tbl (k_name c) then scan_spec tbl r (S depth) else Some EInvalid)
+      else scan_spec tbl r depth
+  end.
+
+(* C11: the lexical fold *)
+Fixpoint nfold (cs acc_rev : list wcomp) : list wcomp :=
+  match cs with
+  | [] => rev acc_rev
+  | c :: r =>
+      if k_is_cur c then nfold r acc_rev
+      else if k_is_parent c then
+        match acc_rev with
+        | x :: acc' => if k_is_normal x then nfold r acc' else nfold r acc_rev
+        | [] => nfold r acc_rev
+        end
+      else nfold r (c :: acc_rev)
+  end.
+
+(* C12: stem / extension of a file name: split at the last dot, unless the name is ".." or
+   its only dot is its first byte *)
+Fixpoint last_dot (n : list byte) (i : nat) (best : option nat) : option nat :=
+  match n with
+  | [] => best
+  | b :: r => last_dot r (S i) (if b =? 46 then Some i else best)
+  end.
+Definition split_name (n : list byte) : list byte * option (list byte) :=
+  if beq_list n [46; 46] then (n, None)
+  else match last_dot n O None with
+       | None => (n, None)
+       | Some O => (n, None)
+       | Some i => (firstn i n, Some (skipn (S i) n))
+       end.
